@@ -238,6 +238,7 @@ Inductive iop :=
 Inductive vsrc :=
 | VCopy (p : path)            (* n.P, or a type conversion T(n.P) *)
 | VValid (p : path)           (* n.P.IsValid() *)
+| VNoPos (p : path)           (* if n.P == token.NoPos { out.O = true } *)
 | VConst (s : string)         (* true / false *)
 | VExpr (s : string).         (* anything else *)
 
